@@ -6,6 +6,8 @@ From SU Require Import F32 F32Lemmas.
 From SU.Model Require Import Quantizer.
 From SU.Spec Require Import QuantSpec.
 From SU.Proofs Require Import QuantHystProofs.
+From Flocq Require Import Core IEEE754.BinarySingleNaN.
+From SU.Proofs Require Import QuantExtraProofs.
 Open Scope R_scope.
 
 (** if the previously reported note is still allowed and the input is inside its window,
@@ -56,6 +58,87 @@ Theorem C09_noise_one_change : forall ops k v vs, wf_ops ops ->
   forall n, In n (convert_seq (qrun ops) (v :: vs)) -> n = hd 0%Z (convert_seq (qrun ops) (v :: vs)).
 Proof. exact noise_one_change. Qed.
 
+(** any scale: while the inputs stay inside the widened bucket of a note n, once n is reported it is never left *)
+Open Scope Z_scope.
+Theorem C09_window_sticky : forall ops n vs, wf_ops ops -> 0 <= n <= 131 ->
+  (forall x, In x vs -> (R32 (win_lo n) < R32 (clamp_vin x) < R32 (win_hi n))%R) ->
+  sticky (fun m => m = n) (convert_seq (qrun ops) vs).
+Proof. exact window_sticky. Qed.
+Close Scope Z_scope.
+
+(** any scale in which the note above the boundary is allowed: noise within the hysteresis width around that boundary causes no change after the first conversion *)
+Open Scope Z_scope.
+Theorem C09_noise_upper_allowed : forall ops k v vs, wf_ops ops -> 1 <= k <= 120 ->
+  note_allowed (q_allowed (qrun ops)) k = true ->
+  (forall x, In x (v :: vs) -> fin x /\ (Rabs (R32 x - IZR k / 12) <= R32 HYST - / 262144)%R) ->
+  forall n, In n (convert_seq (qrun ops) (v :: vs)) ->
+            n = hd 0 (convert_seq (qrun ops) (v :: vs)).
+Proof. exact noise_upper_allowed. Qed.
+Close Scope Z_scope.
+
+(** any scale in which the note below the boundary is allowed: at most one change *)
+Open Scope Z_scope.
+Theorem C09_noise_lower_allowed : forall ops k vs, wf_ops ops -> 1 <= k <= 120 ->
+  note_allowed (q_allowed (qrun ops)) (k - 1) = true ->
+  (forall x, In x vs -> fin x /\ (Rabs (R32 x - IZR k / 12) <= R32 HYST - / 262144)%R) ->
+  (changes (convert_seq (qrun ops) vs) <= 1)%nat.
+Proof. exact noise_lower_allowed. Qed.
+Close Scope Z_scope.
+
+(** and where neither is allowed (scale {C, E}, boundary at D) there is no noise immunity: the decision point of the nearest-note search lies outside both windows. The property claims immunity around a chromatic boundary only *)
+Open Scope Z_scope.
+Theorem C09_noise_gap_scale_unbounded : forall n,
+  let ops := [QForbid [1; 2; 3; 5; 6; 7; 8; 9; 10; 11]] in
+  wf_ops ops /\ q_allowed (qrun ops) = 17 /\
+  (forall x, In x (alt_in (S n)) ->
+     fin x /\ (Rabs (R32 x - IZR 2 / 12) <= R32 HYST - / 262144)%R) /\
+  convert_seq (qrun ops) (alt_in (S n)) = alt_out (S n) /\
+  changes (convert_seq (qrun ops) (alt_in (S n))) = (2 * n + 1)%nat.
+Proof. exact noise_gap_scale_unbounded. Qed.
+Close Scope Z_scope.
+
+(** non-vacuity: a reachable state and input inside the window *)
+Open Scope Z_scope.
+Theorem C09_ex_keeps :
+  let ops := [QConvert v_0_5] in
+  let q := qrun ops in
+  wf_ops ops /\ c_note (q_cached q) = 6 /\
+  keeps q v_0_5042 = true /\ c_note (snd (convert q v_0_5042)) = 6.
+Proof. exact ex_keeps. Qed.
+Close Scope Z_scope.
+
+(** and outside it *)
+Open Scope Z_scope.
+Theorem C09_ex_not_keeps :
+  let ops := [QConvert v_0_5] in
+  let q := qrun ops in
+  wf_ops ops /\ keeps q v_0_7 = false /\ c_note (snd (convert q v_0_7)) = 8.
+Proof. exact ex_not_keeps. Qed.
+Close Scope Z_scope.
+
+(** non-vacuity of C09_noise_one_change *)
+Open Scope Z_scope.
+Theorem C09_ex_noise_one_change :
+  let ops := @nil quant_op in
+  let vs := [v_0_496; v_0_504; v_0_496; v_0_5] in
+  wf_ops ops /\ q_allowed (qrun ops) = 4095 /\ 1 <= 6 <= 120 /\
+  (forall x, In x vs -> fin x /\ (Rabs (R32 x - IZR 6 / 12) <= R32 HYST - / 262144)%R) /\
+  convert_seq (qrun ops) vs = [5; 5; 5; 5] /\
+  convert_seq (qrun ops) [v_0_504; v_0_496] = [6; 6].
+Proof. exact ex_noise_one_change. Qed.
+Close Scope Z_scope.
+
+(** non-vacuity of C09_monotone *)
+Open Scope Z_scope.
+Theorem C09_ex_monotone :
+  let ops := [QConvert v_0_25; QForbid [2]] in
+  let vs := [f_0; v_0_25; v_0_5; v_0_5042; v_0_7; v_10; B754_infinity false] in
+  wf_ops ops /\ fle_sorted vs /\
+  convert_seq (qrun ops) vs = [0; 3; 6; 6; 8; 120; 120] /\
+  nondecreasing (convert_seq (qrun ops) vs).
+Proof. exact ex_monotone. Qed.
+Close Scope Z_scope.
+
 Print Assumptions C09_keep.
 Print Assumptions C09_memoryless.
 Print Assumptions C09_cached_ok.
@@ -63,3 +146,11 @@ Print Assumptions C09_window_test.
 Print Assumptions C09_window_bounds.
 Print Assumptions C09_monotone.
 Print Assumptions C09_noise_one_change.
+Print Assumptions C09_window_sticky.
+Print Assumptions C09_noise_upper_allowed.
+Print Assumptions C09_noise_lower_allowed.
+Print Assumptions C09_noise_gap_scale_unbounded.
+Print Assumptions C09_ex_keeps.
+Print Assumptions C09_ex_not_keeps.
+Print Assumptions C09_ex_noise_one_change.
+Print Assumptions C09_ex_monotone.
